@@ -575,7 +575,8 @@ def execute_plan(plan) -> dict:
             explicit=None if explicit is None else explicit["yields"],
             faults=ph.get("faults", ()),
             hot_funcs=HOT_FUNCS,
-            force_trace=bool(plan.get("force_trace")),
+            # an explicit replay is traced exactly when the run it replays was
+            force_trace=bool(plan.get("force_trace")) or bool((explicit or {}).get("traced")),
             # bounded liveness: the largest operation in the pool (optimized from_grammar of
             # sql.pest) takes 225 000 steps; an operation may take ten times that, a phase
             # forty times
@@ -644,7 +645,7 @@ def execute_plan(plan) -> dict:
     for sc in scheds:
         for k2, v2 in sc.concurrency_probe.items():
             probe[k2] = probe.get(k2, 0) + v2
-    schedules = [{"first": getattr(sc, "first", None), "yields": sc.recorded} for sc in scheds]
+    schedules = [{"first": getattr(sc, "first", None), "yields": sc.recorded, "traced": sc.traced} for sc in scheds]
     return {
         "results": results,
         "digest": log.hexdigest(),
